@@ -48,38 +48,68 @@ def _absorb_delta(c, res, total):
         total['counters'][k] = total['counters'].get(k, 0) + v
 
 
+def _par(jobs, width=4):
+    """Runs callables concurrently (TLC processes with 1-2 workers each); returns their results in order."""
+    with ThreadPoolExecutor(max_workers=width) as ex:
+        futs = [ex.submit(j) for j in jobs]
+        return [f.result() for f in futs]
+
+
+def _exh(c, family, module, cfg, workers=1, timeout=3000):
+    def run():
+        r = c.tlc_exhaustive(family, module, cfg, workers=workers, timeout=timeout)
+        c.log('TLC exhaustive %s: %d distinct / %d generated, depth %d, %.0fs' % (cfg, r['distinct'], r['states'], r['depth'], r['wall_s']))
+        return r
+    return run
+
+
+def _witness(c, family, module, cfg):
+    def run():
+        w = c.tlc(family, module, cfg, workers=1, timeout=1500, expect_violation=True)
+        wit = _error_trace(w['out']) if not w['ok'] else None
+        if not wit:
+            raise vf.Inconclusive('%s produced no counterexample: %s' % (cfg, w['out'][-1500:]))
+        c.log('TLC counterexample %s: %d steps' % (cfg, len(wit) - 1))
+        return wit
+    return run
+
+
+def _sim(c, family, module, cfg, n, depth):
+    def run():
+        s = c.tlc(family, module, cfg, simulate=n, depth=depth, timeout=2400)
+        if not s['ok']:
+            raise vf.Inconclusive('simulation %s failed: %s\n%s' % (cfg, s['error'], s['out'][-3000:]))
+        behs = c.behaviours(s)
+        c.log('TLC simulate %s: %d behaviours, %.0fs' % (cfg, len(behs), s['wall_s']))
+        return behs
+    return run
+
+
 def c14(c):
     quick = c.tier == 'quick'
     total = {'executed': 0, 'completed': 0, 'counters': {}}
     binp = c.go_build('keyed')
-    # 0. which tags-filter policy does the code apply to delta subscribers (C16's business; C14 holds under both)
+    # 0. which tags-filter policy does the code apply to delta subscribers (C14 holds under both, see Delta.tla)
     pr = c.harness(binp, 'probe', {}, timeout=60)
     withhold = bool(pr['extra']['withhold'])
     c.log('probe: publications excluded by the tags filter are %s for delta subscribers' % ('withheld' if withhold else 'still pushed (live paths)'))
     c.cov['filter_policy_for_delta_subscribers'] = 'withhold' if withhold else 'push'
+    c._specdir('Delta')
+    v = lambda x: _variant(c, 'Delta', x, withhold)
     # 1. design check: the reference design satisfies C14 on every behaviour of the small configurations
+    # 2. the code as written (flagDeltaAllowed after every recovered subscribe) has C14 counterexamples in the model
+    # 3. behaviours of the reference design for replay
     cfgs = ['quick_rec.cfg', 'quick_np.cfg'] if quick else ['thorough_pos.cfg', 'thorough_np.cfg', 'thorough_faults.cfg']
-    _exhaustive_parallel(c, 'Delta', 'Delta', [_variant(c, 'Delta', x, withhold) for x in cfgs])
+    jobs = [_exh(c, 'Delta', 'Delta', v(x), workers=1 if quick else 2) for x in cfgs]
     if not quick:   # the other filter policy is sound as well
-        _exhaustive_parallel(c, 'Delta', 'Delta', [_variant(c, 'Delta', x, not withhold) for x in ['quick_rec.cfg', 'quick_np.cfg']])
-    # 2. the code as written (flagDeltaAllowed after every recovered subscribe) has C14 counterexamples in the model:
-    #    replay TLC's counterexample on the real code, verdict by the byte-level monitor only
-    w = c.tlc('Delta', 'Delta', _variant(c, 'Delta', 'ascoded.cfg', withhold), workers=2, timeout=1500, expect_violation=True)
-    wit = _error_trace(w['out']) if not w['ok'] else None
-    if wit:
-        c.log('TLC counterexample of the as-coded flagDeltaAllowed rule: %d steps -> replayed as witness' % (len(wit) - 1))
-        res = c.harness(binp, 'delta', {'hist_size': 2, 'compare': False, 'behaviours': [wit]}, timeout=300)
-        _absorb_delta(c, res, total)
-        c.cov['samples'] += res['samples'][:1]
-    else:
-        raise vf.Inconclusive('as-coded configuration produced no counterexample: %s' % w['out'][-1500:])
-    # 3. behaviours of the reference design replayed with frame comparison
-    n = 1000 if quick else 10000
-    s = c.tlc('Delta', 'DeltaSim', _variant(c, 'Delta', 'sim.cfg', withhold), simulate=n, depth=30, timeout=1800)
-    if not s['ok']:
-        raise vf.Inconclusive('simulation failed: %s\n%s' % (s['error'], s['out'][-3000:]))
-    behs = c.behaviours(s)
-    c.log('TLC simulate sim.cfg: %d behaviours' % len(behs))
+        jobs += [_exh(c, 'Delta', 'Delta', _variant(c, 'Delta', x, not withhold)) for x in ['quick_rec.cfg', 'quick_np.cfg']]
+    nj = len(jobs)
+    jobs += [_witness(c, 'Delta', 'Delta', v('ascoded.cfg')), _sim(c, 'Delta', 'DeltaSim', v('sim.cfg'), 600 if quick else 8000, 30)]
+    out = _par(jobs)
+    wit, behs = out[nj], out[nj + 1]
+    res = c.harness(binp, 'delta', {'hist_size': 2, 'compare': False, 'behaviours': [wit]}, timeout=300)
+    _absorb_delta(c, res, total)
+    c.cov['samples'] += res['samples'][:1]
     res = c.harness(binp, 'delta', {'hist_size': 3, 'compare': True, 'behaviours': behs}, timeout=1800)
     _absorb_delta(c, res, total)
     c.cov['samples'] += res['samples'][:1]
@@ -101,28 +131,24 @@ def c25(c):
     quick = c.tier == 'quick'
     total = {'executed': 0, 'completed': 0, 'counters': {}}
     binp = c.go_build('keyed')
-    # 1. design check of the reference (safety: action properties on every frame + invariants; liveness under
-    #    weak fairness of worker / publisher / revoker / track completion with the refresh timer on, no constraint)
+    c._specdir('SharedPoll')
+    # 1. design check of the reference (safety: action properties on every frame + invariants; liveness under weak
+    #    fairness of worker / publisher / revoker / track completion with the refresh timer on, no state constraint)
+    # 2. deviations of the code from the reference found by TLC: counterexamples = witnesses for the real code
+    # 3. behaviours of the reference for gate replay
     cfgs = ['quick.cfg', 'quick_vl.cfg'] if quick else ['thorough.cfg', 'thorough_vl.cfg', 'quick.cfg']
-    _exhaustive_parallel(c, 'SharedPoll', 'SharedPoll', cfgs, workers=2 if quick else 3)
-    _exhaustive_parallel(c, 'SharedPoll', 'SharedPoll', ['live.cfg', 'live_vl.cfg'], workers=2)
-    # 2. deviations of the code from the reference found by TLC: replay each counterexample on the real code
-    for cfg in ('ascoded_flip.cfg', 'ascoded_removal.cfg', 'ascoded_epoch.cfg'):
-        w = c.tlc('SharedPoll', 'SharedPoll', cfg, workers=2, timeout=1500, expect_violation=True)
-        wit = _error_trace(w['out']) if not w['ok'] else None
-        if not wit:
-            raise vf.Inconclusive('%s produced no counterexample: %s' % (cfg, w['out'][-1500:]))
-        c.log('TLC counterexample %s: %d steps -> replayed as witness' % (cfg, len(wit) - 1))
-        res = c.harness(binp, 'sharedpoll', {'compare': False, 'versioned': True, 'behaviours': [wit]}, timeout=300)
-        _absorb_sp(c, res, total)
-    # 3. behaviours of the reference replayed with frame comparison
-    n = 500 if quick else 5000
-    for cfg, versioned, k in (('sim_v.cfg', True, n), ('sim_flip.cfg', True, n // 4), ('sim_vl.cfg', False, n // 2)):
-        s = c.tlc('SharedPoll', 'SharedPollSim', cfg, simulate=k, depth=60, timeout=1800)
-        if not s['ok']:
-            raise vf.Inconclusive('simulation %s failed: %s\n%s' % (cfg, s['error'], s['out'][-3000:]))
-        behs = c.behaviours(s)
-        c.log('TLC simulate %s: %d behaviours' % (cfg, len(behs)))
+    jobs = [_exh(c, 'SharedPoll', 'SharedPoll', x, workers=1 if quick else 2) for x in cfgs + ['live.cfg', 'live_vl.cfg']]
+    nj = len(jobs)
+    wcfgs = ['ascoded_flip.cfg', 'ascoded_removal.cfg', 'ascoded_epoch.cfg']
+    jobs += [_witness(c, 'SharedPoll', 'SharedPoll', x) for x in wcfgs]
+    n = 160 if quick else 4000
+    sims = (('sim_v.cfg', True, n), ('sim_flip.cfg', True, n // 4), ('sim_vl.cfg', False, n // 2))
+    jobs += [_sim(c, 'SharedPoll', 'SharedPollSim', x, k, 50) for x, _, k in sims]
+    out = _par(jobs)
+    wits = out[nj:nj + len(wcfgs)]
+    res = c.harness(binp, 'sharedpoll', {'compare': False, 'versioned': True, 'behaviours': wits}, timeout=300)
+    _absorb_sp(c, res, total)
+    for (cfg, versioned, _), behs in zip(sims, out[nj + len(wcfgs):]):
         res = c.harness(binp, 'sharedpoll', {'compare': True, 'versioned': versioned, 'behaviours': behs}, timeout=1800)
         _absorb_sp(c, res, total)
         c.cov['samples'] += res['samples'][:1]
